@@ -999,11 +999,12 @@ func (c *Ctx) c07Batch(b BK) {
 					switch s.op {
 					case "ExpireAll":
 						if ev.Kind == pw.EvMapInsert && isShardData(ev) {
-							if al := pointee(ev.Value); al != nil && al.Kind == pw.KAlloc && al.Fields["E"] == startTS && startTS != nil && ev.Key != nil && ev.Key.Kind == pw.KRangeKey {
+							if al := pointee(ev.Value); al != nil && al.Kind == pw.KAlloc && p.FieldOf(al, "E") == startTS && startTS != nil && ev.Key != nil && ev.Key.Kind == pw.KRangeKey {
 								effects++
 							}
 						}
-						if ev.Kind == pw.EvFieldWrite && ev.Field != nil && fname(ev.Field) == "E" {
+						if ev.Kind == pw.EvFieldWrite && ev.Field != nil && fname(ev.Field) == "E" && !(ev.Recv != nil && ev.Recv.Kind == pw.KAlloc) {
+							// (filling in the fresh replacement entry is part of building it; the effect is its insertion)
 							if ev.Value == startTS && startTS != nil {
 								effects++
 							}
@@ -1157,14 +1158,14 @@ func (c *Ctx) c07Write(b BK) {
 			r.Bad("R07.5", op, "stored-entry", c.Pos(st.Pos), "stored entry is not a freshly built entry literal", shortTrace(p))
 			continue
 		}
-		if ent.Fields["V"] != vparam {
+		if p.FieldOf(ent, "V") != vparam {
 			r.Bad("R07.5", op, "stored-value", c.Pos(st.Pos), "stored V is not the value parameter", shortTrace(p))
 		}
-		if !isFreshCopyOf(p.Events, ent.Fields["K"], key) {
+		if !isFreshCopyOf(p.Events, p.FieldOf(ent, "K"), key) {
 			r.Bad("R07.5", op, "stored-key", c.Pos(st.Pos), "stored K is not a private copy of the key parameter", shortTrace(p))
 		}
 		// E: result of expireAt: ts(now.Add(ttl)) or the constant 0
-		ev := ent.Fields["E"]
+		ev := p.FieldOf(ent, "E")
 		okE := false
 		if ev != nil {
 			if ev.Kind == pw.KCall && ev.Ev.Role == "Std:time.Time.UnixNano" {
